@@ -19,7 +19,12 @@ pub fn regex_term(ctx: &Ctx, token: Token) -> RegexTerm {
 }
 pub type IntConst = ValSpan<u32>;
 pub fn int_const(ctx: &Ctx, token: Token) -> IntConst {
-    IntConst::new(token.value.parse().unwrap(), Some(ctx.span()))
+    // Saturate integers which do not fit. Priorities are checked against their
+    // upper bound later which reports the problem at this location.
+    IntConst::new(
+        token.value.parse().unwrap_or(u32::MAX),
+        Some(ctx.span()),
+    )
 }
 pub type FloatConst = ValSpan<f32>;
 pub fn float_const(ctx: &Ctx, token: Token) -> FloatConst {
